@@ -249,6 +249,33 @@ pub fn run_c14(sc: &HistSc, st: &mut Stats) -> super::c06::HistOutcome {
                 if pool.len() < 10 && rng.chance(1, 3) { pool.push(Value::Object(other)); }
             }
         }
+        // same fragments in the same traversal order, different structure: trailing entries / items
+        // moved into (or out of) the preceding nested container. A comparison that flattens values
+        // (walks both traversals side by side) cannot tell these apart.
+        if obs.len() >= 2 {
+            let m = 1 + rng.usize_below(obs.len() - 1);
+            set_hash_config(hash_mode_of("good"), rng.next_u64());
+            let built = catch_unwind(AssertUnwindSafe(|| {
+                let inner_part = Value::Object(Object::from_vec(obs[..m].to_vec()));
+                let inner_all = Value::Object(Object::from_vec(obs.to_vec()));
+                let mut a = vec![Entry::new(Key::from("w"), inner_part)];
+                a.extend(obs[m..].iter().cloned());
+                let oa = Value::Object(Object::from_vec(a));
+                let ob = Value::Object(Object::from_vec(vec![Entry::new(Key::from("w"), inner_all)]));
+                let vals: Vec<Value> = obs.iter().map(|e| e.value.clone()).collect();
+                let mut xa: Vec<Value> = vec![Value::Array(vals[..m].to_vec().into())];
+                xa.extend(vals[m..].iter().cloned());
+                let aa = Value::Array(xa.into());
+                let ab = Value::Array(vec![Value::Array(vals.into())].into());
+                (oa, ob, aa, ab)
+            }));
+            if let Ok((oa, ob, aa, ab)) = built {
+                st.bump("renesting_pairs_compared");
+                if let Some(v) = must_differ(&oa, &ob, &format!("{} vs the same fragments re-nested {}", oa, ob)) { return HistOutcome { violation: Some(v), outcome: d.finish(), nontrivial }; }
+                if let Some(v) = must_differ(&aa, &ab, &format!("{} vs the same fragments re-nested {}", aa, ab)) { return HistOutcome { violation: Some(v), outcome: d.finish(), nontrivial }; }
+                if pool.len() < 10 && rng.chance(1, 4) { pool.push(oa); pool.push(ob); }
+            }
+        }
         if pool.len() < 10 { pool.push(Value::Object(orig)); }
     }
     // pool laws over snapshots, near copies and a few plain values
